@@ -45,6 +45,11 @@ var (
 var rep *lib.Report
 var knownList []lib.Known
 
+// curDev names the deviation set the model is asked for: "cur" is Dev.current of Model.lean.
+// VERIF_C19_DEV overrides it (a subset of the letters l f t g, or "-") so that a proposed fix can be
+// checked in a scratch tree against the model with the corresponding flag switched off.
+var curDev = "cur"
+
 // the deviation flags of the model (Dev in Model.lean) and the known finding each one stands for
 var devFlags = []struct {
 	letter string
@@ -198,9 +203,9 @@ func prepare(c *Case, reqs *[]string) *caseRun {
 		fr.implDiff = safeDiff(va, vb, ign)
 		fr.implCmp = safeCompare(va, vb, altIgnores(c.Ign))
 		fr.implMatch = safeMatch(va, vb)
-		fr.qDiff = add("diff\t" + fl + "\tcur\t0\t" + cr.a + "\t" + cr.b + "\t" + cr.ig)
-		fr.qOne = add("diff\t" + fl + "\tcur\t1\t" + cr.a + "\t" + cr.b + "\t" + cr.ig)
-		fr.qMatch = add("match\t" + fl + "\tcur\t" + cr.a + "\t" + cr.b)
+		fr.qDiff = add("diff\t" + fl + "\t" + curDev + "\t0\t" + cr.a + "\t" + cr.b + "\t" + cr.ig)
+		fr.qOne = add("diff\t" + fl + "\t" + curDev + "\t1\t" + cr.a + "\t" + cr.b + "\t" + cr.ig)
+		fr.qMatch = add("match\t" + fl + "\t" + curDev + "\t" + cr.a + "\t" + cr.b)
 		cr.flavs = append(cr.flavs, fr)
 	}
 	return cr
@@ -465,6 +470,10 @@ func main() {
 	flag.Parse()
 	rep = lib.NewReport(*prop, *tier, *seed)
 	knownList = lib.LoadKnown(*known, *prop)
+	if d := os.Getenv("VERIF_C19_DEV"); d != "" {
+		curDev = d
+		rep.Notes = append(rep.Notes, "model deviation set overridden by VERIF_C19_DEV="+d)
+	}
 	if *replay != "" {
 		runReplay()
 		return
